@@ -428,6 +428,7 @@ class Policy:
     """Rule specific semantics; the defaults are conservative."""
 
     inline_depth = 4
+    record_atoms = True  # remember the decision taken on an undecided test (path consistency)
     loop_unroll = 2  # iterations explored for loops over non-concrete iterables
     max_cfgs = 20000
 
@@ -477,6 +478,10 @@ class Policy:
 
     def on_stmt(self, interp, stmt, cfg):
         return cfg
+
+    def keep_local(self, name):
+        """False: the local is irrelevant for the rule; it is not stored (reads yield an opaque symbol)."""
+        return True
 
 
 # ----------------------------------------------------------------------
@@ -936,6 +941,8 @@ class Interp:
     # ------------------------------------------------------------------
     def assign(self, tgt, val, cfg, out):
         if isinstance(tgt, ast.Name):
+            if not self.policy.keep_local(tgt.id):
+                return [cfg.unset(tgt.id)]
             return [cfg.set(tgt.id, val)]
         if isinstance(tgt, (ast.Tuple, ast.List)):
             n = len(tgt.elts)
@@ -1021,6 +1028,8 @@ class Interp:
             t = self.policy.truth(self, v, cfg)
         if t is not None:
             return [(cfg, bool(t))]
+        if not self.policy.record_atoms:
+            return [(cfg, True), (cfg, False)]
         atom = self.policy.atom_key(self, node, v, cfg)
         d = cfg.decided(atom)
         if d is not None:
@@ -1751,6 +1760,20 @@ class Interp:
                 return [(cfg, base)]
             if meth == "update" and len(args) == 1 and isinstance(args[0], ListV):
                 return rebind(ListV(base.items + args[0].items, base.kind))
+            if meth in ("issubset", "issuperset", "difference", "union", "intersection", "isdisjoint") and len(args) == 1:
+                other = args[0]
+                if isinstance(other, Const) and isinstance(other.v, (frozenset, set, tuple, list)):
+                    other = ListV([Const(x) for x in other.v], "set")
+                if isinstance(other, ListV) and all(isinstance(x, Const) for x in base.items + other.items):
+                    a, b = set(base.items), set(other.items)
+                    if meth == "issubset":
+                        return [(cfg, Const(a <= b))]
+                    if meth == "issuperset":
+                        return [(cfg, Const(a >= b))]
+                    if meth == "isdisjoint":
+                        return [(cfg, Const(not (a & b)))]
+                    r = {"difference": a - b, "union": a | b, "intersection": a & b}[meth]
+                    return [(cfg, ListV(sorted(r, key=repr), "set"))]
         if isinstance(base, DictV):
             if meth == "get" and args and isinstance(args[0], (Const, ClassV)):
                 v = base.get(args[0])
